@@ -26,6 +26,16 @@ CHECKS = {
             'Trusted: vf/texpr.py ref_eval. Bounds: <= 7 operations, small integer operands, exponent <= 3. Failing call '
             'steps and exotic exception classes: only class preservation is asserted (DESIGN.md section 6).',
             'DESIGN.md section 4 / C02'),
+    'C18': ('Hypothesis-generated T/Path recipes with eval(repr) and pickle round-trips compared on repr, operation tuple and '
+            'outcome over a battery of targets; Path-as-sequence laws vs the tuple of steps; exhaustive itertools '
+            'enumeration of every index and (start, stop, step) triple',
+            'Generated-input search with round-trip and differential oracles, plus complete enumeration of the finite '
+            'index/slice domain (n <= 4 quick, n <= 6 thorough, T and S roots). The round-trip compares operation tuples '
+            'and evaluation, not just repr strings, so a repr that drops information is caught even if it is stable.',
+            'Trusted: Python eval/pickle, tuple slicing as the reference for Path slicing, vf/texpr.py builders. '
+            'Not generated: arithmetic steps, lambdas, non-finite floats, S-rooted wildcards (DESIGN.md F20); Path(p, q) with '
+            'an S-rooted Path p is exercised as Path(p.path_t, q). Bounds: <= 6 steps, literals nested <= 2.',
+            'DESIGN.md section 4 / C18'),
 }
 
 NOT_YET = 'check not built yet in this session (design in DESIGN.md section 4); will be claimed once its check is quiet on the unchanged tree'
